@@ -17,7 +17,7 @@ RULE = ("a case = up to 4 simulated hosts, each consistently good (well-formed V
         "attributes, truncated reply, undecryptable payload, marker-only, a V1-style XML announcement whose TCP port accepts and stays silent / answers XML / answers garbage / closes), good hosts of any appliance type whose reply body names their own, another responder's, no or a foreign address, each sending 1..3 copies of its reply (a good host may answer with a V2-style and a V3-style reply of the same identity, in either order, back to back or 0.3 s apart) from source ports "
         "{6445, 20086, random}; the arrival order of all datagrams is a parameter (every distinct interleaving for <= 6 datagrams, "
         "seeded random orders beyond). Oracle: Discover.discover() returns normally, the reported addresses are exactly the good hosts, "
-        "one device per address, and nothing reaches the event loop's exception handler. distinct = (hosts, classes, arrival order); "
+        "one device per address (with the default listening window or timeout in {1,2,3,8} s when all replies arrive inside it), and nothing reaches the event loop's exception handler. distinct = (hosts, classes, arrival order); "
         "non-trivial = at least two datagrams or at least one bad host")
 ASSUMPTIONS = ["each host is consistently good or consistently bad within a run (the statement does not say which reply wins otherwise)",
                "V1-style XML replies that carry a port attribute trigger a TCP probe of that host: such a host is unusable and must be omitted like the other bad classes as long as the TCP connection can be made; a refused or never-completing TCP connect is outside the statement's reply classes (DESIGN section 4, observation 3) and is not generated"]
@@ -142,6 +142,8 @@ def _vary(rng, hosts):
 def generate(ctx, rng):
     for key, case in _generate(ctx, rng):
         _vary(rng, case["hosts"])
+        # the optional listening window (seconds); used only if every scripted reply arrives well inside it
+        case["timeout"] = rng.choice([None, None, 1, 2, 3, 8])
         yield key, case
 
 
@@ -227,10 +229,15 @@ def run_case(ctx, case):
     for i, h in enumerate(hosts):
         sims.append(SimHost(net, f"10.18.0.{i + 1}", r.choice([6445, 20086]), per_host[i]))
 
+    last = max([d for lst in per_host.values() for d, _, _ in lst] or [0.0])
+    tmo = case.get("timeout") if (case.get("timeout") and case["timeout"] > last + 0.25) else None
+
     async def go(loop):
+        if tmo is not None:
+            return await Discover.discover(auto_connect=False, timeout=tmo)
         return await Discover.discover(auto_connect=False)
 
-    key = ("c18", tuple((h["good"], h.get("klass"), h["version"], h["copies"], h.get("dual"), h.get("body_ip"), h.get("type")) for h in hosts), tuple(case["order"]), case.get("gap"))
+    key = ("c18", tmo, tuple((h["good"], h.get("klass"), h["version"], h["copies"], h.get("dual"), h.get("body_ip"), h.get("type")) for h in hosts), tuple(case["order"]), case.get("gap"))
     nontrivial = len(case["order"]) >= 2 or any(not h["good"] for h in hosts)
     unhandled = []
     try:
